@@ -647,11 +647,13 @@ def classify(v, detail):
         return 'panic'
     info = (detail or {}).get('info') or v.get('info') or {}
     em = info.get('emitted')
-    m = re.search(r'\b%s\??: (.*?)(; p\d+\??: | \}\) => \(\) => null)' % re.escape(str(info.get('prop'))), v['source'], re.S)
-    ty = m.group(1) if m else '?'
+    # every declaration of the prop (a union of object types declares it once per member)
+    ms = list(re.finditer(r'\b%s\??: (.*?)(?=; p\d+\??: | \} \| \{ p\d+\??: | \}\) => \(\) => null)' % re.escape(str(info.get('prop'))), v['source'], re.S))
+    m = ms[0] if ms else None
+    ty = ' / '.join(x.group(1) for x in ms) if ms else '?'
     if len(ty) > 40 or re.fullmatch(r'[A-Za-z_$][\w$]*(<.*>)?', ty) and ty.split('<')[0] not in ('Date', 'Al0', 'Al1', 'Al2', 'Al3', 'If0', 'If1', 'If2', 'Rec0', 'Cls0'):
         ty = 'type-reference' if '<' not in ty else 'generic-type-reference'
-    full = m.group(1) if m else ''
+    full = ' / '.join(x.group(1) for x in ms)
     if re.search(r'\b(any|unknown)\b', full) and em and 'null' in em and len(em) > 1:
         return 'any/unknown-inside-a-union-emits-null-beside-constructors'
     if info.get('value_kind') == 'bigint' and em is not None and 'BigInt' not in em and 'Number' in em and re.search(r'\b\d+n\b', full):
